@@ -27,10 +27,24 @@ EXPLANATION = ("body VCs of _transcribe/__init__/search/group/span/start/end aga
                "table enumerated completely against the real re; short targets enumerated exhaustively")
 
 
+def frame_census(ctx):
+    """F: nothing in regex.py outlives a call except what the constructors store on the object they build"""
+    from pyvc import frames
+    mi = ctx.repo.modules.get(F)
+    bad = []
+    if mi is not None:
+        spec = {q: dict(allow_self_rebind=True) for (q, f_, m_) in frames.functions_of(mi) if q.endswith(".__init__")}
+        bad = frames.check_frame(mi, F, spec, allow_self_rebind=False, ignore_roots=("?",)) + frames.memoised(mi, F)
+    return [Obligation("C16.F1 search/group/span keep no state: no store reaches the pattern object, its class, a module-level "
+                       "name or an argument", [], tm.B(not bad), kind="F", text="stores: %s" % bad,
+                       meta=dict(function="census", clause="F1", detail=bad))]
+
+
 def obligations(ctx):
     obs = ctx.verify(FUNCTIONS)
     obs += lemmas(ctx)
     obs += literal(ctx)
+    obs += frame_census(ctx)
     return obs
 
 
@@ -186,8 +200,99 @@ def bounded(ctx):
                                 case=dict(pattern=pat, target=s, kind=kind, kw=kw),
                                 expected=dict(start=j, end=j + mm.end(), groups=[mm.group(g) for g in range(ngroups + 1)]),
                                 observed=dict(start=m.start(), end=m.end(), groups=got_texts)))
-    return dict(evaluations=evals, distinct_nontrivial=len(distinct),
-                rule="(1) every (code, letter, case) triple of the IUPAC table, exhaustively; (2) every target over "
+    # (4) patterns that begin with a literal word (every structure of a module begins with its recognition site):
+    # one and two occurrences of the word, every rotation (the word across the origin), upper / lower / partly lower
+    # / per-letter mixed spellings; oracle = leftmost start whose one-turn window matches, as in (2)
+    import random as _random
+    rng4 = _random.Random(ctx.seed)
+    anchored_n = 0
+    for word in ("ACGT", "GGTCTC", "GAAGAC", "CACCTGC"):
+        pat = word + "N(NN)(N*?)(R)"
+        rx = DNARegex(pat)
+        cre = re.compile(DNARegex._transcribe(pat)) if hasattr(DNARegex, "_transcribe") else rx.regex
+        fill = lambda k: "".join(rng4.choice("ACGT") for _ in range(k))
+        texts = [word + "TAC" + fill(5) + "A", word + "TAC" + fill(3) + "G" + word + "CTT" + fill(2) + "A"]
+        for base in texts:
+            n = len(base)
+            first = base.upper().find(word)
+            for k in range(n):
+                rot = base[k:] + base[:k]
+                spellings = {rot, rot.lower(), "".join(c.lower() if rng4.random() < 0.5 else c for c in rot)}
+                # only the first occurrence of the word in lower case, the rest upper (and the converse)
+                j0 = (first - k) % n
+                idx = {(j0 + t) % n for t in range(len(word))}
+                spellings.add("".join(c.lower() if i in idx else c for i, c in enumerate(rot)))
+                spellings.add("".join(c if i in idx else c.lower() for i, c in enumerate(rot)))
+                for sp in sorted(spellings):
+                    for kind in ("seq-linear", "seq-circular", "circular-record"):
+                        circ = kind != "seq-linear"
+                        for pos in (0, 1):
+                            tgt = CircularRecord(Seq(sp), id="x") if kind == "circular-record" else Seq(sp)
+                            kw = dict(pos=pos)
+                            if kind == "seq-circular":
+                                kw["linear"] = False
+                            evals += 1
+                            anchored_n += 1
+                            data = sp + sp if circ else sp
+                            want = None
+                            for j in range(pos, n):
+                                mm = cre.match(data[j:j + n])
+                                if mm is not None:
+                                    want = (j, j + mm.end(), [mm.group(g) for g in range(cre.groups + 1)])
+                                    break
+                            try:
+                                m = rx.search(tgt, **kw)
+                                got = None if m is None else (m.start(), m.end(), [str(getattr(m.group(g), "seq", m.group(g)))
+                                                                                    for g in range(cre.groups + 1)])
+                            except Exception as e:
+                                got = "raised %r" % (e,)
+                            if want is not None:
+                                distinct.add((pat, sp, kind, pos))
+                            if got != want and len(viol) < 60:
+                                viol.append(dict(name="anchored_%s_%s" % (word, kind),
+                                                 what="DNARegex(%r).search(%s %r, %r) gives %r, the leftmost one-turn match is %r" % (
+                                                     pat, kind, sp, kw, got, want),
+                                                 case=dict(pattern=pat, target=sp, kind=kind, kw=kw), expected=want, observed=got))
+    # (3) re-use: the same pattern object asked about the same target object with different arguments, every ordered
+    # pair of argument sets; each answer must be the one a fresh pattern gives for a fresh target
+    def outcome(m):
+        if m is None:
+            return None
+        return (m.start(), m.end(), [str(getattr(m.group(g), "seq", m.group(g))) for g in range(0, m.match.re.groups + 1)]
+                if hasattr(m, "match") else None)
+
+    reuse_n = 0
+    for pat in ("A(N)", "(N)C", "AN*C", "(C)(A)"):
+        for n in (2, 3):
+            for tup in itertools.product("AC", repeat=n):
+                s = "".join(tup)
+                kws = [dict(pos=p_, linear=l_, **({} if e_ is None else dict(endpos=e_)))
+                       for p_ in (0, 1) for l_ in (True, False) for e_ in (None, n - 1)]
+                for kind in ("seq", "record", "circular-record"):
+                    mk = {"seq": lambda: Seq(s), "record": lambda: SeqRecord(Seq(s), id="x"),
+                          "circular-record": lambda: CircularRecord(Seq(s), id="x")}[kind]
+                    for k1 in kws:
+                        for k2 in kws:
+                            rx, tgt = DNARegex(pat), mk()
+                            try:
+                                rx.search(tgt, **k1)
+                                got = outcome(rx.search(tgt, **k2))
+                                want = outcome(DNARegex(pat).search(mk(), **k2))
+                            except Exception as e:
+                                got, want = "raised %r" % (e,), "no exception"
+                            evals += 1
+                            reuse_n += 1
+                            if got != want and len(viol) < 40:
+                                viol.append(dict(name="reuse_%s_%s_%s" % (re.sub(r"\W", "_", pat), s, kind),
+                                                 what="the same DNARegex(%r) on the same %s %r: search(%r) after search(%r) gives %r, a fresh "
+                                                      "pattern on a fresh target gives %r" % (pat, kind, s, k2, k1, got, want),
+                                                 case=dict(pattern=pat, target=s, kind=kind, first=k1, second=k2),
+                                                 expected=want, observed=got))
+    return dict(evaluations=evals, distinct_nontrivial=len(distinct), reuse_pairs=reuse_n, anchored=anchored_n,
+                rule="(4) patterns beginning with a literal word of 4-7 letters on texts with one and two occurrences of it, every "
+                     "rotation, five spellings (upper, lower, per-letter mixed, only the first occurrence lower, all but it lower); (1) every (code, letter, case) triple of the IUPAC table, exhaustively; (3) the same pattern object "
+                     "on the same target object, every ordered pair of argument sets (pos, endpos, linear) on targets over AC "
+                     "of length 2-3, against a fresh pattern on a fresh target; (2) every target over "
                      "ACGT up to length %d x %d patterns x start ranges x {Seq linear, Seq circular, SeqRecord, "
                      "CircularRecord}; non-trivial = the search reports a match (distinct by pattern, target, kind, range)" % (L, len(patterns)),
                 bound="targets <= %d letters; %d patterns with 1-5 groups and greedy/lazy runs" % (L, len(patterns)),
